@@ -26,6 +26,10 @@ pub const INSTANTS: [i64; N_INSTANTS as usize] = [
     1_730_613_600, // 2024-11-03T06:00Z
     4_000_000_000,
     253_402_207_200, // near the maximum
+    1_709_883_000,   // 2024-03-08T07:30Z = 02:30 EST (wall time that is in a gap two days later)
+    1_710_054_600,   // 2024-03-10T07:10Z = 03:10 EDT, just after the US gap
+    1_730_611_800,   // 2024-11-03T05:30Z = 01:30 EDT, inside the US fold
+    1_711_848_600,   // 2024-03-31T01:30Z, just after the EU gap
 ];
 
 pub fn instant(t: u8) -> Timestamp {
@@ -57,6 +61,15 @@ pub fn make_tz(spec: &Spec) -> TimeZone {
             let bytes = zonegen::synth_tzif(k, tr);
             TimeZone::tzif(&format!("Synth/{k}-{tr}"), &bytes).unwrap()
         }
+        Spec::TzifNamed { name, k } => {
+            let bytes = zonegen::synth_tzif(k, false);
+            TimeZone::tzif(&format!("Named/{}", name % 2), &bytes).unwrap()
+        }
+        Spec::TzifBundled(i) => {
+            let name = STATIC_NAMES[(i % N_STATIC) as usize];
+            let (canonical, bytes) = jiff_tzdb::get(name).expect("bundled zone");
+            TimeZone::tzif(canonical, bytes).unwrap()
+        }
         Spec::Static(i) => match i % N_STATIC {
             0 => S0.clone(),
             1 => S1.clone(),
@@ -64,6 +77,9 @@ pub fn make_tz(spec: &Spec) -> TimeZone {
         },
     }
 }
+
+pub const STATIC_NAMES: [&str; N_STATIC as usize] =
+    ["America/New_York", "Europe/Dublin", "Asia/Kolkata"];
 
 pub enum Val {
     Tz(TimeZone),
@@ -262,6 +278,11 @@ pub trait Env {
     /// Memory-model check in the middle of an operation, before the
     /// operation touches a value again. `false`: stop, the run is aborting.
     fn checkpoint(&mut self, what: &'static str) -> bool;
+    /// A `Zoned` arithmetic API panicked. That is not a statement about
+    /// handles (it belongs to the arithmetic properties), so it is counted
+    /// and otherwise ignored; the memory model is still checked after the
+    /// unwinding, which dropped the API's temporaries.
+    fn api_panic(&mut self, api: &'static str);
     fn no_alloc_begin(&mut self);
     fn no_alloc_end(&mut self, what: &'static str);
 }
@@ -276,6 +297,10 @@ fn put<E: Env>(slots: &mut Slots, dst: u8, new: Option<Slot>, env: &mut E) {
         env.handles(zone, -1);
     }
     slots[d] = new;
+}
+
+fn quietly<T>(f: impl FnOnce() -> T) -> Option<T> {
+    std::panic::catch_unwind(std::panic::AssertUnwindSafe(f)).ok()
 }
 
 fn zoned_consistent(z: &Zoned) -> Result<(), String> {
@@ -471,7 +496,14 @@ pub fn apply<E: Env>(me: u8, op: &Op, slots: &mut Slots, env: &mut E) -> bool {
             let Some(x) = slots[ix(*src)].as_ref() else { return false };
             let Val::Zoned(ref z) = x.val else { return false };
             let (zone, spec) = (x.zone, x.spec.clone());
-            if let Some(z2) = zoned_make(z, *which, *arg) {
+            let made = match quietly(|| zoned_make(z, *which, *arg)) {
+                Some(m) => m,
+                None => {
+                    env.api_panic("zoned_make");
+                    None
+                }
+            };
+            if let Some(z2) = made {
                 env.handles(zone, 1);
                 if let Err(e) = zoned_consistent(&z2) {
                     env.fail("zoned_consistency", e);
@@ -485,7 +517,9 @@ pub fn apply<E: Env>(me: u8, op: &Op, slots: &mut Slots, env: &mut E) -> bool {
         Op::ZonedMutate { slot, which, arg } => {
             let Some(x) = slots[ix(*slot)].as_mut() else { return false };
             let Val::Zoned(ref mut z) = x.val else { return false };
-            zoned_mutate(z, *which, *arg);
+            if quietly(|| zoned_mutate(z, *which, *arg)).is_none() {
+                env.api_panic("zoned_mutate");
+            }
             if !env.checkpoint("zoned_mutate") {
                 return false;
             }
@@ -509,6 +543,40 @@ pub fn apply<E: Env>(me: u8, op: &Op, slots: &mut Slots, env: &mut E) -> bool {
                 env.fail("zoned_consistency", "Zoned ordering disagrees with its timestamp".into());
             }
             let _ = p.duration_until(q);
+        }
+        Op::ZonedPair { a, b, which } => {
+            let (Some(x), Some(y)) = (slots[ix(*a)].as_ref(), slots[ix(*b)].as_ref()) else {
+                return false;
+            };
+            let (Val::Zoned(ref p), Val::Zoned(ref q)) = (&x.val, &y.val) else { return false };
+            // All of these only read `p` and `q`; none may change the number
+            // of handles. Results are checked for basic sanity only (the
+            // arithmetic itself is a different property).
+            let units = [Unit::Year, Unit::Month, Unit::Week, Unit::Day, Unit::Hour, Unit::Second];
+            let w = which % N_ZONED_PAIR;
+            let span = quietly(|| match w {
+                0..=5 => p.until((units[w as usize], q)).ok(),
+                6..=11 => p.since((units[(w - 6) as usize], q)).ok(),
+                12 => p.until(q).ok(),
+                13 => p.since(q).ok(),
+                14 if mid_range(p) && mid_range(q) => Some(p - q),
+                _ => {
+                    let _ = p.duration_since(q);
+                    None
+                }
+            });
+            let span = match span {
+                Some(s) => s,
+                None => {
+                    env.api_panic("zoned_pair");
+                    None
+                }
+            };
+            if let Some(span) = span {
+                if p.timestamp() == q.timestamp() && !span.is_zero() {
+                    env.fail("zoned_consistency", "until/since of equal instants is not zero".into());
+                }
+            }
         }
         Op::TzMake { src, dst, which, t } => {
             let Some(x) = slots[ix(*src)].as_ref() else { return false };
